@@ -248,7 +248,7 @@ def gen_closed_cases(rng, ctx):
     def add(a, b, cls, big=False):
         k = rng.choice([0, 0, max(0, len(a) - 1), len(a), rng.randint(0, len(a) + 1)])
         cases.append({"a": a, "b": b, "k": k, "cls": cls, "big": big})
-    rounds = ctx.scale(2, 24)
+    rounds = ctx.scale(2, 16)
     for _ in range(rounds):
         # (i) every length 0..20, (ii) 8k-1, 8k, 8k+1 for k <= 9
         lens = list(range(0, 21)) + sorted({8 * k + d for k in range(3, 10) for d in (-1, 0, 1)})
@@ -295,7 +295,7 @@ def gen_closed_cases(rng, ctx):
 def gen_tail_cases(rng, ctx):
     """suffixes of strings: base length 7..17, every offset 0..9; both sides are tails taken from literals / atom_chars strings"""
     cases = []
-    for _ in range(ctx.scale(2, 24)):
+    for _ in range(ctx.scale(2, 16)):
         for n in range(7, 18):
             for off in range(0, 10):
                 if off > n: continue
@@ -357,7 +357,7 @@ def reps_partial(pre, kind, T, rng):
 
 def gen_partial_cases(rng, ctx):
     cases = []
-    for _ in range(ctx.scale(2, 24)):
+    for _ in range(ctx.scale(2, 16)):
         lens = list(range(0, 13)) + [15, 16, 17, 23, 24, 25]
         for n in lens:
             for alpha in ("ascii", "mixed", "nul"):
